@@ -23,6 +23,7 @@ func init() {
 			"C08.R1 E5 carried-state rule on edgeMultiComputeRecordSpecs",
 			"C08.R2 E3 congruence of the min() operands and of the returned record specifications per mode",
 			"C08.R3 must-pass-through of the validity check in the reconfiguration methods; clauses of valid()",
+			"C08.R5 every sample read of the edge finder is dominated by the true branch of its search-window test (index <= last)",
 			"C08.R4 E3 window relation at the edge-finder call; E6 proof of trigger index >= look-back",
 		},
 		Assumptions: []string{"EMTState field names and the functions edgeMultiComputeRecordSpecs / edgeMultiShouldRecord / edgeMultiFindNextTriggerInd are name-keyed anchors"},
@@ -35,9 +36,11 @@ func runC08(p *Prog, r *Report) {
 	r.MinInstances["C08.R2"] = 8
 	r.MinInstances["C08.R3"] = 5
 	r.MinInstances["C08.R4"] = 4
+	r.MinInstances["C08.R5"] = 4
 	c08R1R4(p, r)
 	c08R2(p, r)
 	c08R3(p, r)
+	c08R5(p, r)
 }
 
 func emtField(v ssa.Value) string {
@@ -563,5 +566,57 @@ func c08R3(p *Prog, r *Report) {
 			}
 		})
 		r.Check(stored, "C08.R3", name+": the check looks at the new state", p.InstrPos(vcall), "state stored before the check", "the validity check runs before the new values are stored")
+	}
+}
+
+// ---- R5: the finder reads samples only inside its search window -------------------------------
+
+// c08R5: the caller guarantees the window relation (R4) only for a non-empty window; with fewer
+// samples than the look-back the window is empty (first > last) and the finder must not touch
+// the data at all.  Every element read of the sample slice in the finder therefore lies inside
+// the loop whose header tests the search index against the last index.
+func c08R5(p *Prog, r *Report) {
+	fn := p.Func("", "", "edgeMultiFindNextTriggerInd")
+	if fn == nil || len(fn.Params) == 0 {
+		r.Unk("C08.anchor", "edgeMultiFindNextTriggerInd", "-", "anchor not found")
+		return
+	}
+	r.Fn(FuncName(fn))
+	raw := fn.Params[0]
+	// the search loop: a header whose If compares a phi with a parameter (i <= iLast)
+	var hdr *ssa.BasicBlock
+	for _, b := range fn.Blocks {
+		iff, ok := b.Instrs[len(b.Instrs)-1].(*ssa.If)
+		if !ok {
+			continue
+		}
+		bo, ok := iff.Cond.(*ssa.BinOp)
+		if !ok || (bo.Op != token.LEQ && bo.Op != token.LSS) {
+			continue
+		}
+		ph, isPhi := bo.X.(*ssa.Phi)
+		_, isPrm := bo.Y.(*ssa.Parameter)
+		if isPhi && isPrm && ph.Block() == b {
+			hdr = b
+		}
+	}
+	if hdr == nil {
+		r.Bad("C08.R5", "the finder's search loop", p.Pos(fn.Pos()), "no loop that tests the search index against the last searchable index was found")
+		return
+	}
+	body := hdr.Succs[0]
+	n := 0
+	Instrs(fn, func(in ssa.Instruction) {
+		ia, ok := in.(*ssa.IndexAddr)
+		if !ok || ia.X != ssa.Value(raw) {
+			return
+		}
+		n++
+		inside := body.Dominates(ia.Block())
+		r.Check(inside, "C08.R5", fmt.Sprintf("sample read #%d of the finder is inside the search window test", n), p.InstrPos(ia), "dominated by the true branch of index <= last",
+			"the samples are indexed outside the loop that tests the search index against the last searchable index: when the window is empty (fewer samples than the look-back after a reset or a length change) this read is out of range and panics block processing")
+	})
+	if n == 0 {
+		r.Bad("C08.R5", "sample reads of the finder", p.Pos(fn.Pos()), "the finder does not read the sample slice it is given")
 	}
 }
